@@ -49,9 +49,10 @@ Definition check (c : case) : option nat :=
 
 Definition ops_of (c : case) : list (op OL) := map (fun x => fst (fst x)) (steps_of c).
 
-(* inside the quantifier domain of the C15 theorems: committing asks only and
-   no exception *)
+(* inside the quantifier domain of the C15 theorems: no exception, and -- for
+   the code as it was -- committing asks only (the repaired model's theorems
+   hold for all histories, tentative asks included) *)
 Definition is_legal (c : case) : bool :=
-  legal (ops_of c) && negb (failed (run (rep_of c) (init_of c) (ops_of c))).
+  (rep_of c || legal (ops_of c)) && negb (failed (run (rep_of c) (init_of c) (ops_of c))).
 
 Definition trace (c : case) := model_trace (@step OL (rep_of c)) observe (init_of c) (ops_of c).
